@@ -228,7 +228,9 @@ func c11Workflow(r *Rand, expr string) (string, []c11Position) {
 	at("run", true, 6, "- run", sc(pre+ph+post))
 	b.L(6, "- uses: actions/github-script@"+r.Pick([]string{"v7", "v7", "main", "60a0d83039c74a4aee543508d2ffcb1c3799cdea", "v7.0.1"}))
 	b.L(8, "with:")
-	at("github-script.script", true, 10, "script", sc(r.Pick([]string{"console.log(", "return ", "core.info(`"})+ph+r.Pick([]string{")", "", "`)"})))
+	// action input keys are case-insensitive (GitHub and actionlint's parser fold them), so the
+	// script input may be spelled Script / SCRIPT as well
+	at("github-script.script", true, 10, r.Pick([]string{"script", "script", "script", "Script", "SCRIPT", "scRipt"}), sc(r.Pick([]string{"console.log(", "return ", "core.info(`"})+ph+r.Pick([]string{")", "", "`)"})))
 	at("github-script.other-input", false, 10, r.Pick([]string{"github-token", "result-encoding", "retries"}), sc(ph))
 	b.L(6, "- uses: actions/checkout@v4")
 	b.L(8, "with:")
